@@ -36,6 +36,21 @@ CHECKS = {
  "C18": ("mc_conv", "4/C18", "exhaustive enumeration of ALL 2^32 f32 bit patterns (width 64; 8 widths thorough), all 2048 f64 exponents x ~160 mantissa patterns x both signs plus 2^52+k / k+0.5 neighbourhoods, and 2^k*m value universes for Uint->float, vs an exact integer oracle on the IEEE fields",
          "Float->Uint results (value, error class, saturation) are compared with floor(f+1/2) computed exactly; Uint->float results must be one of the two exact neighbours, exact when representable, +inf only beyond the rounding range, and monotone along the sorted universe.",
          "f64 mantissas from a pattern alphabet (not all 2^52). Wrapped payloads of float errors are unspecified in the code and not compared. Trusted: IEEE-754 conformance of the hardware/LLVM for +,*,casts."),
+ "C09": ("mc_fmt", "4/C09", "exhaustive enumeration of (value, base) round trips, all short digit strings over {0,1,b-1,b,b+1}, 6 formatting traits x 40 format specs x chunk-boundary values, and all strings of length <= 2 (+ length-3 families) over a 76-character set x every radix 0..=66, on the real code vs positional notation / std's primitive formatting",
+         "Digit iterators, from_base_*, from_str_radix/FromStr and the six fmt traits are compared with reference digit strings, u128 formatting (where the value fits) and Formatter::pad_integral; error outcomes are checked as sets (error precedence is not part of the property).",
+         "Bases from a fixed list at > 8 bits; strings longer than 3 characters only as formatted values / overflow-by-one strings. Trusted: std formatting of u128, num-bigint to_str_radix."),
+ "C11": ("mc_kernels", "4/C11", "exhaustive enumeration, for every N in 1..=16, of moduli with top limb below/at/above both carry thresholds x structured operand sets (full a x b product per modulus), on algorithms::{mul_redc,square_redc} and Uint::{mul_redc,square_redc}, vs a*b*R^-1 mod m in BigUint; hook counters report the carry / subtraction paths reached",
+         "Montgomery multiplication and squaring are compared with the exact residue (result must be < m) on a universe built around the two carry thresholds and the final conditional subtraction; N = 1 additionally for all odd m < 256 with all a, b < m.",
+         "inv is computed by the harness (Newton), not by ruint. Operands are structured (extremes, run shapes, perturbations of m), not all values."),
+ "C12": ("mc_kernels", "4/C12", "deviation-bounded exhaustive search of the tree of inverse Euclid steps (quotient sequences with <= D non-unit quotients, every node checked) + all pairs at small widths and over limb alphabets, on the real gcd/lcm/gcd_extended/LehmerMatrix code vs Euclid on BigUint",
+         "Every pair reachable by quotient sequences with at most D deviations from the all-ones (Fibonacci) sequence is checked for gcd, lcm, the Bezout identity modulo 2^BITS and the Lehmer-matrix postcondition; hook counters report which Jebelean outcomes and fallbacks were reached.",
+         "Quotients from a 7-element alphabet, 5 seeds; D = 2 (<= 129 bits) / 1 (wider) quick, 3 / 2 thorough. compose() is not checked (unused by the library, semantics undocumented)."),
+ "C14": ("mc_kernels", "4/C14", "exhaustive enumeration of numerator x divisor slices (all length pairs 1..=12, alphabet products and run shapes, derived n = q*d + r + delta), all 256 reciprocal table rows x in-row offsets, boundary and structureless word alphabets for 2-by-1 / 3-by-2, vs BigUint / u128 division; preconditions checked by the harness before each call",
+         "algorithms::div and each specialised kernel are compared with exact division on the sub-universe satisfying their documented conditions of use; hook counters state how often every correction branch was reached.",
+         "Limb contents from alphabets / run shapes / fixed structureless words, not all 2^64 values."),
+ "C15": ("mc_kernels", "4/C15", "exhaustive enumeration of slice triples with independent lengths 0..=10 (alphabet products for short, run shapes for long slices), word primitives on the boundary alphabet squared x carries, shifts by every amount 0..=63, vs BigUint",
+         "addmul/addmul_n, the n x 1 kernels, adc/sbb families, small shifts and cmp are compared with exact integer results including the carry / borrow / overflow outputs.",
+         "Same bounds as C14. Amount 0 is in contract for the small shifts (only stated precondition is amount < 64)."),
 }
 
 NOT_YET = {}
